@@ -63,6 +63,14 @@ def hash_sites(prog):
                 continue
             last = strip_generics(t.callee).split('::')[-1]
             if last not in ITER_METHODS:
+                # implicit iteration: a randomly seeded hash container handed, as the generic argument, to an order-preserving
+                # consumer (`vec.extend(hash_set)`, `Vec::from_iter(hash_map)`, `iter.chain(hash_set)`): the into_iter() happens inside std
+                m_ = re.search(r'::(extend|from_iter|chain|zip|extend_one)::<(.*)>$', t.callee)
+                if m_ and HASH.search(m_.group(2)) and 'NoHashHasher' not in m_.group(2) and 'BuildHasherDefault' not in m_.group(2):
+                    self_ty = t.callee[:t.callee.rfind('::' + m_.group(1) + '::<')]
+                    self_head = re.sub(r'^<', '', self_ty).split(' as ')[0]
+                    if not HASH.search(self_head.split('<')[0]):
+                        out[(b.fid, 'implicit ' + m_.group(1))].append((b, bn, t))
                 continue
             if 'NoHashHasher' in t.callee or 'BuildHasherDefault' in t.callee:
                 nohash.append((b, bn, last, t))
